@@ -120,8 +120,16 @@ static int execute(const harness_t *h, const int *pfx, int plen, uint64_t got[MA
         pixman_image_composite32(PIXMAN_OP_SRC, sgrad, NULL, d, 0, 0, 0, 0, 0, 0, DW, DH);
         pixman_image_unref(d);
     }
+    static uint32_t clipped_pix[DW * DH];
+    pixman_image_t *sclip = body_make_shared_clipped(clipped_pix);
+    {   /* first use on the main thread */
+        uint32_t tmp[DH][DW]; memset(tmp, 0, sizeof tmp);
+        pixman_image_t *d = pixman_image_create_bits(PIXMAN_a8r8g8b8, DW, DH, &tmp[0][0], DW * 4);
+        pixman_image_composite32(PIXMAN_OP_OVER, sclip, NULL, d, 1, 0, 0, 0, 0, 0, DW, DH);
+        pixman_image_unref(d);
+    }
     NT = h->nthreads;
-    for (int t = 0; t < NT; t++) { body_setup(&ctx[t], t, shared); ctx[t].shared_grad = sgrad; alive[t] = 1; }
+    for (int t = 0; t < NT; t++) { body_setup(&ctx[t], t, shared); ctx[t].shared_grad = sgrad; ctx[t].shared_clipped = sclip; alive[t] = 1; }
     npoints = 0; prefix = pfx; prefix_len = plen; diverged = 0; trace_hash = 0;
     for (int t = 0; t < MAXT; t++) last_range[t] = -2;
     turn = -1;
@@ -132,7 +140,7 @@ static int execute(const harness_t *h, const int *pfx, int plen, uint64_t got[MA
     sched_on = 0;
     int bad = 0;
     for (int t = 0; t < NT; t++) { got[t] = body_digest(&ctx[t]); if (got[t] != solo_digest[t]) bad = 1; body_teardown(&ctx[t]); }
-    pixman_image_unref(shared); pixman_image_unref(sgrad);
+    pixman_image_unref(shared); pixman_image_unref(sgrad); pixman_image_unref(sclip);
     return bad;
 }
 
@@ -298,7 +306,7 @@ int main(int argc, char **argv)
               "function); thread exits are free switches. A case is one first deviation of one harness and the whole schedule subtree below it. states = schedules executed, "
               "transitions = executions; oracle: every thread's result digest equals its digest when run alone.";
     vf_assume("preemption at basic-block boundaries and sequentially consistent executions only; races inside a block are the free-running ThreadSanitizer pass's subject");
-    vf_assume("harnesses of 2 threads x 2 operations (all unordered pairs of 9 operation kinds, each thread in opposite order) and 3 threads x 1 operation");
+    vf_assume("harnesses of 2 threads x 2 operations (all unordered pairs of 10 operation kinds, each thread in opposite order) and 3 threads x 1 operation");
     if (n_interesting == 0) vf_cap("symbol table not available: no 'interesting' function ranges, only bound_all applies");
 
     for (int a = 0; a < N_BODY_OPS; a++) for (int b = a; b < N_BODY_OPS; b++) {
